@@ -583,7 +583,8 @@ def handleHist (inp impl : Json) : R OpResult := do
       w := { w with active := st1 }
       match r1 with
       | .ok _ =>
-        let (st2, r2) := ensureRoutesF codec none s st1
+        -- the repeated call runs against an API server that refuses every write
+        let (st2, r2) := ensureRoutesF codec (some 0) s st1
         recJ := recJ ++ [("res2", resToJson r2), ("same2", boolJ (decide (st2.map (·.obj) = st1.map (·.obj)))),
                        ("fresh", arrJ (us.active.map fun u => freshHist u s))]
         w := { w with active := st2 }
